@@ -425,6 +425,20 @@ def run(ck):
                 for k, v in (st.get(key) or {}).items():
                     agg[key][k] = agg[key].get(k, 0) + v
             samples += st.get("samples") or []
+    # a deadline is load dependent: a case that timed out is run again alone with a long deadline;
+    # only a case that still does not return counts
+    slow = 0
+    confirmed = []
+    for f in ffails:
+        if f.get("what") == "timeout":
+            o = replay_cases(ck, [(f["kind"], unb64(f["b"]))], deadline_ms=120000)[0]
+            if o.get("what") not in ("timeout", "crash", "panic"):
+                slow += 1
+                continue
+            if o.get("what") == "panic":
+                f = dict(f, **o)
+        confirmed.append(f)
+    ffails = confirmed
     # group failures by (stage, what, site); shrink one witness per group
     groups = {}
     for f in ffails:
@@ -433,7 +447,7 @@ def run(ck):
     for key, fl in sorted(groups.items(), key=lambda kv: -len(kv[1])):
         f = min(fl, key=lambda x: len(x["b"]))
         data = unb64(f["b"])
-        small = shrink(ck, f["kind"], data, f) if f["what"] != "crash" else data
+        small = shrink(ck, f["kind"], data, f) if f["what"] == "panic" else data    # timeouts/crashes: each probe may cost a full deadline
         text = small.decode("latin-1")
         kf = classify_known(f, text)
         if kf is not None:
@@ -457,7 +471,7 @@ def run(ck):
         "simple_column": {"cases": len(scases), "impl_outcomes": skinds, "error_classes": serrs, "shapes": sshapes, "disagreements": sdis},
         "fuzz": {"NOT_A_PROOF": "runtime search only: parse/analysis/engine are not modelled; absence of a failure here proves nothing",
                  "cases": agg["done"], "processes": nproc, "wall_s": round(fuzz_secs, 1), "bytes": agg["bytes"], "kinds": agg["kinds"],
-                 "shapes": agg["shapes"], "stage_outcomes": agg["stats"], "failure_groups": len(groups), "known_hits": known_hits,
+                 "shapes": agg["shapes"], "stage_outcomes": agg["stats"], "failure_groups": len(groups), "timeouts_not_reproduced_alone": slow, "known_hits": known_hits,
                  "corpus_replayed": len(fcorpus), "fact_limit": 400, "per_case_deadline_ms": 10000 if ck.quick else 20000},
         "samples": [ucases[-1][0].decode("latin-1"), scases[-1][1].decode("latin-1")] + [s.get("text", "") for s in samples[:3]],
     }
